@@ -600,6 +600,17 @@ Theorem C01_underscore_name_mangled_refuted :
 Proof. exact underscore_name_mangled_refuted. Qed.
 Print Assumptions C01_underscore_name_mangled_refuted.
 
+(* NEW: `Y = 1 if not{X} > 0 else 2` — a {parameter} / <error> term directly after a keyword: in the code they fuse into one
+   identifier (`notself._X[t]`), which compiles and raises NameError when evaluated; with a blank in between all is well *)
+Theorem C01_keyword_fused_with_term_refuted :
+  exists eq syms, parse_equation_M eq = POk syms /\ text_guard eq = true /\
+    code_text eq = Some "self._Y[t] = 1 if notself._X[t] > 0 else 2" /\
+    stmt_of_equation (row_of ["Y"; "X"]) eq = None /\
+    stmt_of_equation (row_of ["Y"; "X"]) "Y = 1 if not {X} > 0 else 2"
+    = Some ("Y", SAssign 0 0%Z (EIf CGt (ERead 1 0%Z) (ENum "0") (ENum "2") (ENum "1"))).
+Proof. exact keyword_fused_with_term_refuted. Qed.
+Print Assumptions C01_keyword_fused_with_term_refuted.
+
 (* `Y[a=b] = X` — a match spanning the first `=`: terms and placeholders no longer correspond *)
 Theorem C01_match_spanning_equals_refuted :
   exists eq syms, parse_equation_M eq = POk syms /\ aligned_b eq = false /\
